@@ -17,6 +17,7 @@ import GoNeat.Driver.Sort
 import GoNeat.Driver.FastHand
 import GoNeat.Driver.GenRand
 import GoNeat.Driver.ExperimentEpoch
+import GoNeat.Driver.GenStats
 
 namespace GoNeat.Driver
 def allOps : List (String × Handler) :=
@@ -38,4 +39,5 @@ def allOps : List (String × Handler) :=
   ++ fastHandOps
   ++ genRandOps
   ++ experimentEpochOps
+  ++ genStatsOps
 end GoNeat.Driver
